@@ -35,7 +35,8 @@ def run(ctx):
             cfgs = ["TokenSoup_quick_all2.cfg", "TokenSoup_quick_core3.cfg", "TokenSoup_quick_bytes3.cfg"]
         else:
             cfgs = ["TokenSoup_quick_all2.cfg", "TokenSoup_thorough_expr3.cfg", "TokenSoup_thorough_stmt3.cfg",
-                    "TokenSoup_thorough_decl3.cfg", "TokenSoup_thorough_core4.cfg", "TokenSoup_thorough_bytes4.cfg"]
+                    "TokenSoup_thorough_decl3.cfg", "TokenSoup_thorough_core4.cfg", "TokenSoup_thorough_brk5.cfg",
+                    "TokenSoup_thorough_bytes4.cfg"]
         # the contract machine itself: every call returns and is checked (liveness, small bound)
         ctx.tlc("fmt", "TokenSoup", "TokenSoup_live.cfg", timeout_s=900, workers=WORKERS)
         for cfg in cfgs:
